@@ -385,6 +385,41 @@ func ruleFixpoint(c *Ctx, r *Repo, cp *packages.Package, fd *ast.FuncDecl) {
 		return
 	}
 	flagObj := info.Uses[flag]
+	// the first pass happens: the flag is true when the loop is reached (mechanical-mutation finding: initialised
+	// to false, nothing is ever rendered)
+	{
+		firstTrue, nDef := false, 0
+		for _, g := range familyOf(cp, fd) {
+			ast.Inspect(g.Body, func(n ast.Node) bool {
+				switch x := n.(type) {
+				case *ast.AssignStmt:
+					for i, l := range x.Lhs {
+						if id, ok := l.(*ast.Ident); ok && objOf(info, id) == flagObj && x.Pos() < loop.Pos() && i < len(x.Rhs) {
+							nDef++
+							if rid, ok := ast.Unparen(x.Rhs[i]).(*ast.Ident); ok && rid.Name == "true" {
+								firstTrue = true
+							} else {
+								firstTrue = false
+							}
+						}
+					}
+				case *ast.ValueSpec:
+					for i, nm := range x.Names {
+						if info.Defs[nm] == flagObj && x.Pos() < loop.Pos() {
+							nDef++
+							if i < len(x.Values) {
+								if rid, ok := ast.Unparen(x.Values[i]).(*ast.Ident); ok && rid.Name == "true" {
+									firstTrue = true
+								}
+							}
+						}
+					}
+				}
+				return true
+			})
+		}
+		c.Check(firstTrue && nDef == 1, "R11.3", "ParseTemplates|first-pass", r.Pos(loop.Pos()), "the flag is true when the loop is first reached", "the changed-flag is not initialised to true before the rendering loop: the loop body never runs and no templated value is rendered")
+	}
 	// counter
 	var ctr types.Object
 	if as, ok := loop.Init.(*ast.AssignStmt); ok && len(as.Lhs) == 1 {
